@@ -8,17 +8,19 @@ import (
 func read(rd io.Reader) (byte, error) {
 	var b = make([]byte, 1)
 
-	i, err := rd.Read(b)
+	for {
+		i, err := rd.Read(b)
 
-	if err != nil {
-		return 0, err
+		// a reader may return the last byte together with io.EOF:
+		// the byte has to be processed before the error is considered
+		if i == 1 {
+			return b[0], nil
+		}
+
+		if err != nil {
+			return 0, err
+		}
 	}
-
-	if i != 1 {
-		return 0, err
-	}
-
-	return b[0], nil
 }
 
 func convert(b []byte) (out []byte, err error) {
